@@ -20,7 +20,7 @@ CONSTANTS MaxDeriv,      \* bound on derivations per declarator
           Bases,         \* subset of DOMAIN BaseTable
           SpecQuals,     \* set of qualifier sequences placed before the type specifier
           Storages,      \* set of storage / function-specifier prefixes (sequences of tokens)
-          Ctxs,          \* subset of {"file","block","forinit","param","member","typedef","typename"}
+          Ctxs,          \* subset of {"file","block","forinit","param","absparam","member","typedef","typename"}
           Inits,         \* subset of DOMAIN InitTable
           PtrQuals, Dims, Params, Parens   \* alphabets of the wrappers
 
@@ -131,21 +131,21 @@ InitTable ==
     bits   |-> [toks |-> <<":", "3">>, node |-> Const("int", "3")] ]      \* bit-field width (member context)
 
 \* ---- the machine: choose context, specifiers, then build declarators one wrapper at a time
-Abstract == ctx = "typename"
+Abstract == ctx \in {"typename", "absparam"}      \* absparam: an unnamed parameter of a prototype
 Start == IF Abstract THEN [k |-> "abs"] ELSE [k |-> "name"]
 DeclName(i) == IF i = 1 THEN "x" ELSE "y"
 
 Init == /\ ctx \in Ctxs /\ base \in Bases /\ squals \in SpecQuals
         /\ (base \in {"atomic_ptr", "atomic_fptr"} => squals = <<>>)     \* (qualifiers next to _Atomic(pointer): recorded finding of C07)
         /\ stor \in (IF ctx \in {"file", "block"} THEN Storages ELSE {<<>>})
-        /\ d = (IF ctx = "typename" THEN [k |-> "abs"] ELSE [k |-> "name"])
+        /\ d = Start
         /\ n = 0 /\ done = FALSE /\ decls = <<>> /\ init = "none"
 
 OuterParamArr(x) == x.k \in {"name", "abs"}      \* static / qualifiers / * only in the outermost array of a parameter
 WrapPtr   == \E q \in PtrQuals : d' = [k |-> "ptr", q |-> q, d |-> d]
 WrapArr   == IsDirect(d) /\ \E m \in Dims :
-                /\ (m \in {"static3", "const", "conststatic3", "star", "const3"} => ctx = "param" /\ OuterParamArr(d))
-                /\ (m = "n" => ctx \in {"block", "param", "forinit"})
+                /\ (m \in {"static3", "const", "conststatic3", "star", "const3"} => ctx \in {"param", "absparam"} /\ OuterParamArr(d))
+                /\ (m = "n" => ctx \in {"block", "param", "absparam", "forinit"})
                 /\ d' = [k |-> "arr", dim |-> m, d |-> d]
 WrapFun   == IsDirect(d) /\ \E p \in Params : d' = [k |-> "fun", p |-> p, d |-> d]
 \* ( declarator ) : not around an empty abstract declarator ("()" is a function), not doubled
@@ -174,7 +174,7 @@ Close == /\ ~done /\ Len(decls) < MaxDecls
          /\ d' = Start /\ n' = 0
          /\ UNCHANGED <<ctx, base, squals, stor, done, init>>
 Finish == /\ ~done /\ Len(decls) >= 1 /\ d = Start /\ n = 0
-          /\ (ctx \in {"param", "typename"} => Len(decls) = 1)
+          /\ (ctx \in {"param", "typename", "absparam"} => Len(decls) = 1)
           /\ done' = TRUE /\ UNCHANGED <<ctx, base, squals, stor, d, n, decls, init>>
 Next == Wrap \/ Close \/ Finish
 Spec == Init /\ [][Next]_vars
